@@ -8,16 +8,18 @@ VARIABLES l, st, skipping, fails, cs
 
 Range(s) == { s[i] : i \in DOMAIN s }
 
-TInit0(e) == e.opts
+TInit0(e) == IF e.kind = "rotate" THEN [kind |-> "rotate", o |-> e.opts, mutation |-> e.mutation, mutated |-> FALSE]
+             ELSE [kind |-> "point", o |-> e.opts]
 
 ObsCfg(e) ==
   [err |-> IF e.err THEN e.err_stage ELSE "", minVersion |-> e.min_version, skipVerify |-> e.skip_verify,
-   serverName |-> e.server_name_set, system |-> e.system, roots |-> Range(e.roots), clientCert |-> e.client_cert,
+   serverName |-> e.server_name, system |-> e.system, roots |-> Range(e.roots), clientCert |-> e.client_cert,
    callback |-> e.callback_set, tickets |-> e.tickets, cache |-> e.cache_set]
 
 \* identity of what is carried: the very server name, callback, cache and key pair that were supplied
 CarriedIntact(e) ==
-  ~e.err => /\ e.server_name_ok
+  ~e.err => /\ e.server_name # "foreign"                   \* the very name that was given (host name or IP literal)
+            /\ ~e.selection_err /\ e.selected_cert = e.client_cert  \* what crypto/tls's own selection would present
             /\ (e.callback_set => e.callback_same)
             /\ (e.cache_set => e.cache_same)
             /\ (IF e.client_cert = "none" THEN e.n_certs = 0 ELSE e.n_certs = 1 /\ e.key_matches)
@@ -38,13 +40,30 @@ HandshakeObsOK(o, e) ==
   /\ e.presented = Presented(c, sv)
   /\ e.ok /\ o.callback => e.callback_called
 
-MAllowed(o, e) ==
-  CASE e.ev = "config" -> ConfigOK(o, e)
-    [] e.ev = "handshake" -> HandshakeObsOK(o, e)
+\* history: configuration -> handshake -> the files change -> new handshakes with the same configuration
+RotateOK(s, e) ==
+  LET c == Config(s.o) sv == Servers["D"] IN
+  CASE e.ev = "rot_hs" ->
+         /\ ~e.panic /\ e.phase = (IF s.mutated THEN 2 ELSE 1)
+         /\ e.ok = HandshakeOK(c, sv)
+         /\ e.presented = PresentedAfter(c, sv, IF s.mutated THEN s.mutation ELSE "none")
+         /\ ~e.selection_err /\ e.selected = c.clientCert
+    [] e.ev = "rot_mutate" -> ~s.mutated /\ e.mutation = s.mutation
     [] OTHER -> FALSE
 
-MWhy(o, e) ==
-  CASE e.ev = "config" ->
+MAllowed(s, e) ==
+  IF s.kind = "rotate" THEN RotateOK(s, e)
+  ELSE CASE e.ev = "config" -> ConfigOK(s.o, e)
+         [] e.ev = "handshake" -> HandshakeObsOK(s.o, e)
+         [] OTHER -> FALSE
+
+MWhy(s, e) ==
+  LET o == s.o IN
+  CASE s.kind = "rotate" ->
+         IF e.ev # "rot_hs" THEN "bad-rotate-event"
+         ELSE IF s.mutated THEN "client-certificate-changed-after-configuration-when-files-changed"
+         ELSE "client-certificate-presented-is-not-the-supplied-one"
+    [] e.ev = "config" ->
          IF e.panic THEN "panic"
          ELSE IF ~ConfigAllowed(o, ObsCfg(e)) THEN WhyNot(o, ObsCfg(e))
          ELSE IF ~CarriedIntact(e) THEN "carried-value-not-the-supplied-one"
@@ -59,7 +78,7 @@ MWhy(o, e) ==
          ELSE "verification-callback-not-invoked"
     [] OTHER -> "unknown-event"
 
-MStep(o, e) == o
+MStep(s, e) == IF s.kind = "rotate" /\ e.ev = "rot_mutate" THEN [s EXCEPT !.mutated = TRUE] ELSE s
 
 TheTrace == ndJsonDeserialize(IOEnv.TRACE_FILE)
 TC == INSTANCE TraceCommon WITH TInit <- TInit0, TAllowed <- MAllowed, TStep <- MStep, TWhy <- MWhy,
